@@ -27,6 +27,7 @@ extern "C" void h_disconnected()
     Fx &fx = *new Fx;
     auto *d = fx.d;
     const bool tryNext = (vp_c10_cfg() & CFG_TRYNEXT) != 0, redirect = (vp_c10_cfg() & CFG_REDIRECT) != 0;
+    vp_c10_set_sock_connected(false);      // the socket is in UnconnectedState when it reports `disconnected`
     fx.q->_q_socketDisconnected();
     vp_assert(!d->isAuthenticated, "C10 after the socket disconnected the client is not authenticated");
     neverReportsSession(fx);
@@ -336,4 +337,47 @@ extern "C" void h_bind_answer()
     vp_assert(ans == 0 ? (gaveUp || (smOffered ? goesOn : opened)) : gaveUp,
               "C10 bind answered: the session opens only after a successful bind with nothing left to negotiate; with stream management offered the enable request comes first; any failure gives up (error reported, disconnect requested)");
     if (d->sessionStarted) fx.requestsAllCancelled(); else fx.requestsAllRetained();
+}
+
+// ---- H1r: the socket reports "disconnected", the session cannot be resumed, and the completion handler of the cancelled request issues a
+// new request (retry-on-error pattern) through the REAL send path (OutgoingIqManager::sendIq -> StreamAckManager::send): that request must
+// be completed as well - after a connection loss that cannot be resumed NO request is left outstanding ---------------------------------------
+static OutgoingIqManager *g_iqMgr;
+static std::optional<QXmppTask<IqResult>> g_retryTask;
+static int g_handlerRuns;
+static bool g_sawDisconnected;
+static QString *g_newId, *g_newTo;
+extern "C" void h_disconnected_reenter()
+{
+    Fx &fx = *new Fx;       // instance cfg: exactly one outstanding request (id of 1 unit); no next address selected; redirect pending or not
+    auto *d = fx.d;
+    const bool redirect = (vp_c10_cfg() & CFG_REDIRECT) != 0;
+    // stream management was active on the lost connection, but the session is not resumable
+    d->c2sStreamManager.m_canResume = fx.preCanResume = false;
+    d->streamAckManager.m_enabled = fx.preSmAck = true;
+    QString newId = vpFixString(2), newTo = vpFixString(2);   // fresh id (2 units; the pending one has 1), non-empty addressee
+    g_iqMgr = &d->iqManager; g_newId = &newId; g_newTo = &newTo;
+    fx.task[0]->then(nullptr, [](IqResult &&r) {
+        g_handlerRuns++;
+        if (auto *e = std::get_if<QXmppError>(&r)) {
+            auto *se = std::any_cast<SendError>(&e->error);
+            g_sawDisconnected = se && *se == SendError::Disconnected;
+            QByteArray bytes; vp_c10_tagged(&bytes, T_STANZA);
+            g_retryTask.emplace(g_iqMgr->sendIq(QXmppPacket(bytes, true), *g_newId, *g_newTo));
+        }
+    });
+    vp_c10_set_sock_connected(false);      // the socket is in UnconnectedState when it reports `disconnected`: writes fail
+    fx.q->_q_socketDisconnected();
+    vp_assert(!d->isAuthenticated && !d->sessionStarted, "C10 after the socket disconnected the client is neither authenticated nor in a session");
+    vp_assert(fx.nDisconnected() == 1 && fx.nConnected() == 0 && !vp_c10_sig_arg(fx.sig.disconnected, 0), "C10 exactly one `disconnected`, marked not resumable");
+    vp_assert(vp_c10_conn_n() == (redirect ? 1u : 0u), "C10 a connect attempt exactly when a redirect is pending");
+    vp_assert(g_handlerRuns == 1 && g_sawDisconnected && fx.task[0]->isFinished() && !d->iqManager.hasId(fx.key[0]), "C10 the outstanding request is completed exactly once (error: disconnected)");
+    vp_assert(g_retryTask.has_value(), "C10 the completion handler ran with the error and issued its retry");
+    if (g_retryTask) {
+        vp_assert(g_retryTask->isFinished() && g_retryTask->hasResult() && std::holds_alternative<QXmppError>(g_retryTask->result()),
+                  "C10 a request issued while the lost, non-resumable session is being closed is completed with an error as well (it must not stay outstanding)");
+        vp_assert(!d->iqManager.hasId(newId), "C10 a request issued while the lost, non-resumable session is being closed does not stay in the request table");
+    }
+    vp_assert(fx.map->size() == 0, "C10 no request is outstanding after a connection loss that cannot be resumed");
+    vp_assert(!d->streamAckManager.m_enabled, "C10 stream-management accounting is switched off when the session closes");
 }
